@@ -33,7 +33,26 @@ impl State {
 //@use compile.fns State::push_flow
 //@use compile.fns State::pop_flow
 //@use compile.fns State::has_pending_flow
+//@use compile.fns State::context_open
+//@use compile.fns State::build_mark
+//@use compile.fns State::build_abort
+//@use compile.fns State::build0
+//@use compile.fns State::intern_source
+//@use state.fns State::load_value_opcode assumed
+//@use state.fns State::is_recording assumed
+//@use state.fns State::add_reverse_step assumed
+//@use state.fns State::pop_data assumed
+//@use compile.fns State::code_emit_value
+//@use compile.fns State::run
+//@use compile.fns State::context_close
+//@use compile.fns State::build_from_source
+//@use compile.fns State::build_from_file
 }
+
+// Rext: file system access (src/file.rs) is outside the verified code
+#[verifier::external_body]
+fn verif_read_source_file(path: &Xstr) -> Xresult1<String> { unimplemented!() }
+
 
 //@use compile.fns ::take_first_cond_flow
 //@use compile.fns ::jump_offset
